@@ -58,6 +58,32 @@ def do_replay(path):
     return rerun(d)
 
 
+def _keys_for_target(target, REGISTRY):
+    if target.split(":")[0].startswith(("contracts.", "props.")):
+        return []  # ghost recorders / lemma wrappers defined in /verif, not verde code
+    if target in REGISTRY:
+        return [target]
+    return [k for k, K in REGISTRY.items() if K.target == target][:1]
+
+
+def dependency_closure(roots, REGISTRY, include_roots=False, exclude=()):
+    seen, order, todo = set(roots) | set(exclude), [], list(roots)
+    if include_roots:
+        order = [r for r in roots]
+    while todo:
+        K = REGISTRY[todo.pop(0)]
+        deps = list(getattr(K, "stubs", {}).values()) + list(getattr(K, "deps", ()))
+        for d in deps:
+            if not isinstance(d, str):
+                d = getattr(d, "target", None)
+            for k in _keys_for_target(d, REGISTRY) if d else []:
+                if k not in seen:
+                    seen.add(k)
+                    order.append(k)
+                    todo.append(k)
+    return order
+
+
 def do_prop(a):
     t0 = time.time()
     prop = a.what
@@ -81,7 +107,32 @@ def do_prop(a):
         K = REGISTRY[key]
         for cfg in K.configs(a.tier):
             tasks.append((key, cfg, a.tier, prop))
+    # modular proof: a target is proved against the CONTRACTS of its verde callees, so a change inside a callee
+    # is noticed only by that callee's own obligations. The callee contracts this property's targets rely on
+    # (transitively) are therefore discharged by this check too, unless VERIF_NO_DEPS=1.
+    dep_keys = [] if (a.only or os.environ.get("VERIF_NO_DEPS") == "1") else dependency_closure(pm.TARGETS, REGISTRY)
+    for key in dep_keys:
+        for cfg in REGISTRY[key].configs(a.tier):
+            tasks.append((key, cfg, a.tier, prop))
     results = run_tasks(tasks, a.jobs)
+    if dep_keys is not None and not a.only and os.environ.get("VERIF_NO_DEPS") != "1":
+        # contracts that were used as stubs at run time but are not (yet) among the tasks (stubs installed by
+        # patch_modules rather than declared): discharge them in a second round
+        have = set(pm.TARGETS) | set(dep_keys)
+        extra = []
+        for r in results:
+            for u in r.get("used_prelude", []):
+                if u.startswith("contract-stub:"):
+                    t = u.split(":", 1)[1]
+                    for k in _keys_for_target(t, REGISTRY):
+                        if k not in have and k not in extra:
+                            extra.append(k)
+        extra = dependency_closure(extra, REGISTRY, include_roots=True, exclude=have)
+        if extra:
+            t2 = [(key, cfg, a.tier, prop) for key in extra for cfg in REGISTRY[key].configs(a.tier)]
+            results += run_tasks(t2, a.jobs)
+            tasks += t2
+            dep_keys += extra
 
     obligations, discharged, refuted, unknown = 0, 0, [], []
     undecided_tasks, error_tasks = [], []
@@ -278,7 +329,9 @@ def do_prop(a):
             "trusted_base": sorted(TRUSTED_BASE + sorted(prelude) + sorted("axiom: " + x for x in axioms)),
             "explanation": getattr(pm, "EXPLANATION", ""),
             "functions_under_contract": functions,
-            "inlined_helpers": sorted({h for key in pm.TARGETS for h in REGISTRY[key].inline}),
+            "inlined_helpers": sorted({h for key in list(pm.TARGETS) + list(dep_keys) for h in REGISTRY[key].inline}),
+            "property_targets": list(pm.TARGETS),
+            "callee_contracts_discharged_here": list(dep_keys),
             "configs": len(tasks),
             "paths": paths,
             "discharged_by_backend": by_backend,
